@@ -49,9 +49,10 @@ def ddMatchLoc (p : Pos) (locs : List Loc) : Bool := locs.any (ddMatch1 p)
 /-- `match_line(pos, line)` -/
 def matchLine (p : Pos) (line : Int) : Bool := p.sl == line && p.el == line
 
-/-- `filter_by_path_includes_or_excludes` -/
+/-- `filter_by_path_includes_or_excludes`: "excludes takes precedence if defined" — as soon as the file
+has any line exclude, the line includes are not consulted. -/
 def lineFilter (excl incl : List Int) (p : Pos) : Bool :=
-  if excl.any (matchLine p) then false
+  if !excl.isEmpty then !excl.any (matchLine p)
   else if !incl.isEmpty then incl.any (matchLine p)
   else true
 
